@@ -82,7 +82,7 @@ impl World for TxPoolWorld {
         let hash_seed = ctx.tape.choose(1 << 16);
         det::run_seeded(hash_seed, move || {
             simkit::clock::enable(parties::START_MS);
-            let knobs = parties::draw_knobs(ctx);
+            let knobs = parties::draw_knobs(ctx, hash_seed);
             ctx.ev(format!("hash_seed={hash_seed} knobs={knobs:?}"));
             let mut seed = [0u8; 32];
             seed[..8].copy_from_slice(&hash_seed.to_le_bytes());
